@@ -19,6 +19,10 @@ type exampleBuilder struct {
 	// Infinity recursion can't happen here 'cause we check it before building
 	// example, but optional recursion can be there.
 	processedTypes map[string]int
+
+	// cutPoints the number of optional properties and array items around the
+	// node being built, i.e. of places where a cut recursion can be left out.
+	cutPoints int
 }
 
 func newExampleBuilder(types map[string]internalSchema.Type) *exampleBuilder {
@@ -68,12 +72,25 @@ func (b *exampleBuilder) buildExampleForObjectNode(node *internalSchema.ObjectNo
 	children := node.Children()
 	written := 0
 	for i, childNode := range children {
+		required := isRequiredKey(node, node.Key(i).Key)
+		if !required {
+			b.cutPoints++
+		}
 		ex, err := b.Build(childNode)
+		if !required {
+			b.cutPoints--
+		}
 		if err != nil {
 			return nil, err
 		}
 
 		if ex == nil {
+			if required && b.cutPoints > 0 {
+				// The recursion was cut inside a required property: this
+				// object has no example at this depth either. The cut moves
+				// up to the nearest optional property or array item.
+				return nil, nil
+			}
 			continue
 		}
 
@@ -94,6 +111,19 @@ func (b *exampleBuilder) buildExampleForObjectNode(node *internalSchema.ObjectNo
 	buf.WriteRune('}')
 	// Copy before the deferred Put hands the buffer to somebody else.
 	return append([]byte(nil), buf.Bytes()...), nil
+}
+
+func isRequiredKey(node *internalSchema.ObjectNode, key string) bool {
+	c, ok := node.Constraint(constraint.RequiredKeysConstraintType).(*constraint.RequiredKeys)
+	if !ok {
+		return false
+	}
+	for _, k := range c.Keys() {
+		if k == key {
+			return true
+		}
+	}
+	return false
 }
 
 func (b *exampleBuilder) buildObjectKey(k internalSchema.ObjectNodeKey) ([]byte, error) {
@@ -151,7 +181,9 @@ func (b *exampleBuilder) buildExampleForArrayNode(node *internalSchema.ArrayNode
 	children := node.Children()
 	written := 0
 	for _, childNode := range children {
+		b.cutPoints++
 		ex, err := b.Build(childNode)
+		b.cutPoints--
 		if err != nil {
 			return nil, err
 		}
@@ -180,8 +212,17 @@ func (b *exampleBuilder) buildExampleForMixedValueNode(node *internalSchema.Mixe
 
 	// The first alternative that yields an example is used: an alternative
 	// which only leads back into a type being processed yields nothing.
-	for _, typeName := range tt {
+	for i, typeName := range tt {
+		// A cut inside this alternative can be left out as long as another
+		// alternative follows.
+		hasNext := i+1 < len(tt)
+		if hasNext {
+			b.cutPoints++
+		}
 		ex, err := b.buildExampleForType(node, typeName)
+		if hasNext {
+			b.cutPoints--
+		}
 		if err != nil || ex != nil {
 			return ex, err
 		}
